@@ -310,3 +310,497 @@ Proof.
     apply D2. cbn [msg_terms]. right. left. reflexivity. }
   destruct E2 as [e ->]. rewrite acc_run_absorb by exact I. reflexivity.
 Qed.
+
+(* ------------------------------------------------------------------------------------------------ *)
+(* C15_hello_auth — initiator side (dual): a peer without the cookie never gets the initiator past
+   its Hello check, so the initiator never sends its Introduce and never returns a result.           *)
+
+Fixpoint adv_feeds_init (p : party) (nA : N) (K : list term) (st : istate) (ins : list msg) : Prop :=
+  match ins with
+  | [] => True
+  | m :: tl => msg_derivable K m /\
+               adv_feeds_init p nA (K ++ wire_terms (snd (init_step p nA st m))) (fst (init_step p nA st m)) tl
+  end.
+
+Definition init_passed_hello (st : istate) : bool :=
+  match st with I2 _ | I3 _ _ | IDone _ _ => true | _ => false end.
+
+Lemma init_run_absorb p nA st ins :
+  match st with IFail _ | IDone _ _ => True | _ => False end -> init_run p nA st ins = (st, []).
+Proof.
+  intros Hst. induction ins as [|m tl IH]; [reflexivity|]. cbn [init_run].
+  assert (E : init_step p nA st m = (st, [])) by (destruct st; try contradiction; reflexivity).
+  rewrite E, IH. reflexivity.
+Qed.
+
+Lemma hello2_digest_underivable p nA K s2 :
+  guarded (p_cookie p) K -> unseen nA K ->
+  ~ derives (K ++ [Salt nA; init_digest p nA]) (mkH [s2; init_digest p nA; Cookie (p_cookie p)]).
+Proof.
+  intros G U D.
+  unfold init_digest, mkH in D. cbn [flat_map flat app] in D.
+  remember (p_cookie p) as c eqn:Ec.
+  remember (H [Salt nA; Cookie c]) as dA eqn:EdA.
+  assert (G1 : guarded c (K ++ [Salt nA; dA])).
+  { apply guarded_app; [exact G|]. intros t [<-|[<-|[]]]; [reflexivity|subst dA; reflexivity]. }
+  apply (secret_hash_not_forgeable c _ _ G1) in D.
+  2:{ rewrite existsb_app. apply orb_true_iff. right. subst dA. cbn [existsb term_eqb]. rewrite N.eqb_refl. reflexivity. }
+  assert (Occ : occurs nA (H (flat s2 ++ [dA; Cookie c])) = true).
+  { cbn [occurs]. rewrite existsb_app. apply orb_true_iff. right. subst dA. cbn [existsb occurs]. rewrite N.eqb_refl. reflexivity. }
+  destruct D as (k & Hk & Hx).
+  apply in_app_or in Hk as [Hk|Hk].
+  - rewrite (sec_in_unseen c nA K _ U) in Occ; [discriminate|exists k; tauto].
+  - destruct Hk as [<-|[<-|[]]]; [contradiction Hx|].
+    subst dA. cbn [flat_map flat app sechashes existsb term_eqb] in Hx.
+    rewrite N.eqb_refl in Hx. cbn [orb app] in Hx.
+    destruct Hx as [Hx|[]]. injection Hx as Hx.
+    pose proof (length_flat_ge1 s2) as L. apply (f_equal (@length term)) in Hx.
+    rewrite app_length in Hx. cbn [length] in Hx. lia.
+Qed.
+
+Theorem hello_auth_initiator p nA K ins :
+  guarded (p_cookie p) K -> unseen nA K ->
+  adv_feeds_init p nA (K ++ wire_terms [init_hello p nA]) I1 ins ->
+  init_passed_hello (fst (init_run p nA I1 ins)) = false /\ snd (init_run p nA I1 ins) = [].
+Proof.
+  intros G U F.
+  destruct ins as [|m1 tl]; [split; reflexivity|].
+  cbn [init_run adv_feeds_init] in *. destruct F as [D1 _].
+  assert (E : exists e, init_step p nA I1 m1 = (IFail e, [])).
+  { cbn [init_step]. destruct (frame_err m1) eqn:Ef; [eauto|].
+    destruct m1; cbn [frame_err] in Ef; try discriminate; eauto.
+    destruct (term_eqb digest _) eqn:Ed; [|eauto]. exfalso.
+    apply term_eqb_eq in Ed. subst digest.
+    apply (hello2_digest_underivable p nA K salt G U).
+    apply D1. cbn [msg_terms]. right. left. reflexivity. }
+  destruct E as [e ->]. rewrite init_run_absorb by exact I. split; reflexivity.
+Qed.
+
+(* ------------------------------------------------------------------------------------------------ *)
+(* Join.  Initiator side: the Accept digest sha256(join.Digest:cookie) covers the fresh salt, so it is
+   authenticated.  Acceptor side: nothing fresh from the acceptor enters the Join digest.            *)
+
+Theorem join_initiator_auth p cid nJ K ins :
+  guarded (p_cookie p) K -> unseen nJ K -> In cid K ->
+  (forall m, In m ins -> msg_derivable (K ++ [Salt nJ; join_digest p cid nJ]) m) ->
+  join_final p cid nJ ins <> JDone.
+Proof.
+  intros G U Hcid F.
+  assert (Hstep : forall m, msg_derivable (K ++ [Salt nJ; join_digest p cid nJ]) m ->
+                            exists e, join_step p cid nJ J1 m = JFail e).
+  { intros m Dm. cbn [join_step]. destruct (frame_err m) eqn:Ef; [eauto|].
+    destruct m; cbn [frame_err] in Ef; try discriminate; eauto.
+    destruct (term_eqb digest _) eqn:Ed; [|eauto]. exfalso.
+    apply term_eqb_eq in Ed. subst digest.
+    assert (D : derives (K ++ [Salt nJ; join_digest p cid nJ]) (mkH [join_digest p cid nJ; Cookie (p_cookie p)]))
+      by (apply Dm; cbn [msg_terms]; right; left; reflexivity).
+    clear Dm F. unfold join_digest, mkH in D. cbn [flat_map flat app] in D. rewrite ?app_nil_r in D.
+    remember (p_cookie p) as c eqn:Ec.
+    remember (H (flat cid ++ [Salt nJ; Cookie c])) as dJ eqn:EdJ.
+    assert (G1 : guarded c (K ++ [Salt nJ; dJ])).
+    { apply guarded_app; [exact G|]. intros t [<-|[<-|[]]]; [reflexivity|subst dJ; reflexivity]. }
+    apply (secret_hash_not_forgeable c _ _ G1) in D;
+      [|cbn [existsb term_eqb]; rewrite N.eqb_refl; subst dJ; reflexivity].
+    assert (OdJ : occurs nJ dJ = true).
+    { subst dJ. cbn [occurs]. rewrite existsb_app. apply orb_true_iff. right. cbn [existsb occurs]. rewrite N.eqb_refl. reflexivity. }
+    assert (Occ : occurs nJ (H [dJ; Cookie c]) = true) by (cbn [occurs existsb]; rewrite OdJ; reflexivity).
+    destruct D as (k & Hk & Hx).
+    apply in_app_or in Hk as [Hk|Hk].
+    - rewrite (sec_in_unseen c nJ K _ U) in Occ; [discriminate|exists k; tauto].
+    - destruct Hk as [<-|[<-|[]]]; [contradiction Hx|].
+      pose proof Occ as Occ'. clear Occ. rename Occ' into Occ.
+      remember (H [dJ; Cookie c]) as tgt eqn:Etgt.
+      rewrite EdJ in Hx. cbn [sechashes] in Hx.
+      apply in_app_or in Hx as [Hx|Hx].
+      + destruct (existsb _ _); [|contradiction]. destruct Hx as [Hx|[]]. rewrite Etgt in Hx. injection Hx as Hx.
+        pose proof (length_flat_ge1 cid) as L. apply (f_equal (@length term)) in Hx.
+        rewrite app_length in Hx. cbn [length] in Hx. lia.
+      + rewrite flat_map_app in Hx. apply in_app_or in Hx as [Hx|Hx]; [|cbn in Hx; contradiction].
+        apply sechashes_flat in Hx.
+        pose proof (U cid Hcid) as O1.
+        rewrite (sechashes_occurs c nJ cid _ Hx Occ) in O1. discriminate. }
+  unfold join_final.
+  destruct ins as [|m1 tl].
+  - cbn. discriminate.
+  - cbn [app fold_left]. destruct (Hstep m1 (F m1 (or_introl eq_refl))) as [e ->].
+    assert (Habs : forall l, fold_left (join_step p cid nJ) l (JFail e) = JFail e)
+      by (induction l as [|x l IH]; [reflexivity|exact IH]).
+    rewrite Habs. discriminate.
+Qed.
+
+(* the replay: everything the adversary sends was on the wire of one earlier honest Join *)
+Definition replay_party := mk_party 1 (Str 2) 7%Z (mk_flags true true true false false true true) 0%Z.
+Definition replay_peer := mk_party 1 (Str 1) 5%Z (mk_flags true true true false false true true) 0%Z.
+Definition replay_recorded : list msg := [join_msg replay_peer (Salt 13) 21].
+Definition replay_K : list term := wire_terms replay_recorded.
+
+Definition join_replay_b : bool :=
+  negb (derivable_b replay_K (Cookie 1)) &&
+  forallb (msg_derivable_b replay_K) replay_recorded &&
+  forallb (fun t => negb (exposed 1 t) && negb (occurs 901 t)) replay_K &&
+  acc_accepted (acc_final replay_party 901 902 3%Z replay_recorded) &&
+  (* ... and with the Node field rewritten *)
+  acc_accepted (acc_final replay_party 901 902 3%Z [MJoin (Str 66) (Salt 13) (Salt 21) (join_digest replay_peer (Salt 13) 21)]).
+
+Lemma join_replay_b_true : join_replay_b = true.
+Proof. vm_compute. reflexivity. Qed.
+
+
+Theorem join_replay_refuted : exists (p : party) (K : list term) (ins : list msg) (nB nID : N) (ps : Z),
+  guarded (p_cookie p) K /\ unseen nB K /\ ~ derives K (Cookie (p_cookie p)) /\
+  (forall m, In m ins -> msg_derivable K m) /\
+  acc_accepted (acc_final p nB nID ps ins) = true.
+Proof.
+  exists replay_party, replay_K, replay_recorded, 901, 902, 3%Z.
+  pose proof join_replay_b_true as B. unfold join_replay_b in B.
+  repeat (apply andb_true_iff in B as [B ?]).
+  assert (G : guarded 1 replay_K).
+  { intros t Hin. match goal with H : forallb _ replay_K = true |- _ => rewrite forallb_forall in H; specialize (H t Hin);
+      apply andb_true_iff in H as [H _]; apply negb_true_iff in H; exact H end. }
+  split; [exact G|]. split.
+  { intros t Hin. match goal with H : forallb _ replay_K = true |- _ => rewrite forallb_forall in H; specialize (H t Hin);
+      apply andb_true_iff in H as [_ H]; apply negb_true_iff in H; exact H end. }
+  split; [apply cookie_secret; exact G|]. split.
+  - intros m Hm t Ht. apply d_known. unfold replay_K, wire_terms. apply in_flat_map. exists m. tauto.
+  - assumption.
+Qed.
+
+(* what does hold on the Join path: the digest was computed by a holder of the cookie (it occurs in
+   the adversary's knowledge) — the adversary cannot choose a new connection id or salt *)
+Theorem join_accept_partial p nB nID ps K node cid s d :
+  guarded (p_cookie p) K -> derives K d ->
+  fst (acc_step p nB nID ps A0 (MJoin node cid s d)) = AJoined node cid ->
+  d = mkH [cid; s; Cookie (p_cookie p)] /\ sec_in (p_cookie p) K d.
+Proof.
+  intros G D E. cbn [acc_step frame_err] in E.
+  destruct (term_eqb d _) eqn:Ed; [|discriminate]. apply term_eqb_eq in Ed. split; [exact Ed|].
+  rewrite Ed in D |- *. unfold mkH in *. apply secret_hash_not_forgeable; [exact G| |exact D].
+  cbn [flat_map flat]. rewrite !existsb_app. cbn [existsb term_eqb]. rewrite N.eqb_refl. rewrite !orb_true_r. reflexivity.
+Qed.
+
+Lemma acc_run_no_join_later p nB nID ps st ins :
+  match st with A1 | A2 _ _ _ _ | AFail _ | ADone _ => True | _ => False end ->
+  match fst (acc_run p nB nID ps st ins) with AJoined _ _ => False | _ => True end.
+Proof.
+  revert st. induction ins as [|m tl IH]; intros st Hst.
+  - cbn. destruct st; tauto.
+  - cbn [acc_run]. destruct (acc_step p nB nID ps st m) as [st' o] eqn:E.
+    specialize (IH st'). destruct (acc_run p nB nID ps st' tl) as [st'' o'] eqn:E'. cbn [fst] in *.
+    apply IH. clear IH E'.
+    destruct st; try contradiction; cbn [acc_step] in E;
+      try (injection E as <- <-; exact I);
+      destruct (frame_err m); try (injection E as <- <-; exact I);
+      destruct m; try (injection E as <- <-; exact I).
+    destruct (term_eqb node (p_name p)); [injection E as <- <-; exact I|].
+    destruct (term_eqb digest _); injection E as <- <-; exact I.
+Qed.
+
+(* the full acceptor statement with its guard: under an adversary, acceptance happens only through a
+   first frame that is a Join carrying a digest computed by a cookie holder *)
+Theorem accept_partial p nB nID ps K ins :
+  guarded (p_cookie p) K -> unseen nB K ->
+  adv_feeds_acc p nB nID ps K A0 ins ->
+  acc_accepted (fst (acc_run p nB nID ps A0 ins)) = true ->
+  exists node cid s d tl, ins = MJoin node cid s d :: tl /\ sec_in (p_cookie p) K d.
+Proof.
+  intros G U F Acc.
+  pose proof (hello_auth_acceptor p nB nID ps K ins G U F) as HA.
+  destruct ins as [|m1 tl]; [discriminate Acc|].
+  cbn [adv_feeds_acc] in F. destruct F as [D1 _].
+  cbn [acc_run] in *. destruct (acc_step p nB nID ps A0 m1) as [st1 o1] eqn:E1.
+  destruct (acc_run p nB nID ps st1 tl) as [st2 o2] eqn:E2. cbn [fst] in *.
+  destruct st1.
+  - (* A0: impossible *) cbn [acc_step] in E1. destruct (frame_err m1); [discriminate|].
+    destruct m1; try discriminate; destruct (term_eqb _ _); discriminate.
+  - pose proof (acc_run_no_join_later p nB nID ps A1 tl I) as NJ. rewrite E2 in NJ. cbn [fst] in NJ.
+    destruct st2; try discriminate Acc; try discriminate HA; contradiction.
+  - cbn [acc_step] in E1. destruct (frame_err m1); [discriminate|].
+    destruct m1; try discriminate; destruct (term_eqb _ _); discriminate.
+  - cbn [acc_step] in E1. destruct (frame_err m1); [discriminate|].
+    destruct m1; try discriminate; destruct (term_eqb _ _); discriminate.
+  - (* AJoined *) cbn [acc_step] in E1. destruct (frame_err m1) eqn:Ef; [discriminate|].
+    destruct m1; try discriminate; try (destruct (term_eqb _ _); discriminate).
+    match type of E1 with context[term_eqb ?d (mkH [?c; ?sl; _])] =>
+      match type of D1 with msg_derivable _ (MJoin ?nd _ _ _) =>
+        exists nd, c, sl, d, tl; split; [reflexivity|];
+        assert (Dd : derives K d) by (apply D1; cbn [msg_terms]; do 3 right; left; reflexivity);
+        eapply (join_accept_partial p nB nID ps K nd c sl d G Dd);
+        cbn [acc_step frame_err]; destruct (term_eqb d _); [reflexivity|discriminate]
+      end end.
+  - rewrite acc_run_absorb in E2 by exact I. injection E2 as <- <-. discriminate Acc.
+Qed.
+
+(* ------------------------------------------------------------------------------------------------ *)
+(* C15_agreement and cookie choice on the faithful link                                              *)
+
+Theorem pair_same_cookie pa pb nA nB nID ps :
+  p_cookie pa = p_cookie pb -> p_name pa <> p_name pb ->
+  let s := run_pair pa pb nA nB nID ps in
+  s_init s = IDone (mk_res (p_name pb) (Salt nID) (p_creation pb) (wire_flags (p_flags pb)) (p_mms pb) (p_flags pa) (p_mms pa)) ps /\
+  s_acc s = ADone (mk_res (p_name pa) (Salt nID) (p_creation pa) (wire_flags (p_flags pa)) (p_mms pa) (p_flags pb) (p_mms pb)).
+Proof.
+  intros Ec En.
+  assert (En1 : term_eqb (p_name pa) (p_name pb) = false) by (apply term_eqb_neq; exact En).
+  assert (En2 : term_eqb (p_name pb) (p_name pa) = false) by (apply term_eqb_neq; congruence).
+  unfold run_pair, init_hello, init_digest, acc_digest, intro_of.
+  cbn [acc_step frame_err]. rewrite <- Ec.
+  rewrite (term_eqb_refl (mkH [Salt nA; Cookie (p_cookie pa)])).
+  cbn [init_run init_step frame_err app]. unfold init_digest, acc_digest. rewrite <- ?Ec.
+  rewrite (term_eqb_refl (mkH [Salt nB; mkH [Salt nA; Cookie (p_cookie pa)]; Cookie (p_cookie pa)])).
+  cbn [acc_run acc_step frame_err app intro_of]. rewrite En1. rewrite <- ?Ec.
+  rewrite (term_eqb_refl (mkH [Salt nB; Cookie (p_cookie pa)])).
+  cbn [init_run init_step frame_err app intro_of]. rewrite En2.
+  cbn [acc_run acc_step frame_err app]. split; reflexivity.
+Qed.
+
+Theorem pair_different_cookie pa pb nA nB nID ps :
+  p_cookie pa <> p_cookie pb ->
+  let s := run_pair pa pb nA nB nID ps in
+  s_init s = IFail EIO /\ s_acc s = AFail EDigest.
+Proof.
+  intros Ec.
+  assert (E : term_eqb (init_digest pa nA) (mkH [Salt nA; Cookie (p_cookie pb)]) = false).
+  { apply term_eqb_neq. unfold init_digest, mkH. cbn [flat_map flat app]. intros Hq. injection Hq as Hq. contradiction. }
+  unfold run_pair, init_hello. cbn [acc_step frame_err]. rewrite E. cbn [init_step frame_err fst]. split; reflexivity.
+Qed.
+
+Definition connected (s : session) : bool := init_accepted (s_init s) && acc_accepted (s_acc s).
+
+(* connected iff the cookie of the endpoint in use is the same on both sides *)
+Theorem cookie_choice node_a route_a node_b acc_b pa pb nA nB nID ps :
+  p_cookie pa = route_cookie node_a route_a -> p_cookie pb = acceptor_cookie node_b acc_b ->
+  p_name pa <> p_name pb ->
+  connected (run_pair pa pb nA nB nID ps) =
+  N.eqb (if N.eqb route_a 0 then node_a else route_a) (if N.eqb acc_b 0 then node_b else acc_b).
+Proof.
+  intros Ea Eb En. unfold route_cookie, acceptor_cookie, or_node in *.
+  destruct (N.eqb_spec (if N.eqb route_a 0 then node_a else route_a) (if N.eqb acc_b 0 then node_b else acc_b)) as [E|E].
+  - destruct (pair_same_cookie pa pb nA nB nID ps) as [H1 H2]; [congruence|exact En|].
+    unfold connected. rewrite H1, H2. reflexivity.
+  - destruct (pair_different_cookie pa pb nA nB nID ps) as [H1 H2]; [congruence|].
+    unfold connected. rewrite H1. reflexivity.
+Qed.
+
+(* active network: the Introduce body is not covered by any digest.  A relay between a live honest
+   initiator and the acceptor rewrites name and creation; the acceptor completes with the forged peer. *)
+Definition live_relay_b : bool :=
+  let pa := replay_peer in let pb := replay_party in
+  let h1 := init_hello pa 1 in
+  let '(a1, o1) := acc_step pb 2 3 3%Z A0 h1 in
+  let '(i2, o2) := init_run pa 1 I1 o1 in
+  match o2 with
+  | [MIntro n cr fl mms d] =>
+      let forged := MIntro (Str 66) 999%Z fl mms d in
+      let seen := wire_terms (h1 :: o1 ++ o2) in
+      let '(a3, o3) := acc_step pb 2 3 3%Z a1 forged in
+      match fst (acc_run pb 2 3 3%Z a3 [MAccept tempty 0%Z tempty]) with
+      | ADone r => term_eqb (r_peer r) (Str 66) && Z.eqb (r_peer_creation r) 999 &&
+                   msg_derivable_b seen forged && negb (derivable_b seen (Cookie 1)) &&
+                   forallb (fun t => negb (exposed 1 t)) seen
+      | _ => false
+      end
+  | _ => false
+  end.
+
+Theorem live_relay_refuted : live_relay_b = true.
+Proof. vm_compute. reflexivity. Qed.
+
+(* ------------------------------------------------------------------------------------------------ *)
+(* Permission tables                                                                                 *)
+
+Lemma tget_tset_same n e t : tget n (tset n e t) = Some e.
+Proof.
+  induction t as [|[k e'] t IH]; cbn [tset tget].
+  - rewrite N.eqb_refl. reflexivity.
+  - destruct (N.eqb_spec n k); cbn [tget]; [rewrite N.eqb_refl; reflexivity|].
+    destruct (N.eqb_spec n k); [contradiction|exact IH].
+Qed.
+
+Lemma tget_tset_other n n' e t : n <> n' -> tget n (tset n' e t) = tget n t.
+Proof.
+  intros Hn. induction t as [|[k e'] t IH]; cbn [tset tget].
+  - destruct (N.eqb_spec n n'); [contradiction|reflexivity].
+  - destruct (N.eqb_spec n' k); cbn [tget].
+    + subst k. destruct (N.eqb_spec n n'); [contradiction|reflexivity].
+    + destruct (N.eqb_spec n k); [reflexivity|exact IH].
+Qed.
+
+Lemma tget_tdel_same n t : tget n (tdel n t) = None.
+Proof.
+  induction t as [|[k e'] t IH]; cbn [tdel tget]; [reflexivity|].
+  destruct (N.eqb_spec n k); [exact IH|]. cbn [tget]. destruct (N.eqb_spec n k); [contradiction|exact IH].
+Qed.
+
+Lemma tget_tdel_other n n' t : n <> n' -> tget n (tdel n' t) = tget n t.
+Proof.
+  intros Hn. induction t as [|[k e'] t IH]; cbn [tdel tget]; [reflexivity|].
+  destruct (N.eqb_spec n' k).
+  - subst k. destruct (N.eqb_spec n n'); [contradiction|exact IH].
+  - cbn [tget]. destruct (N.eqb_spec n k); [reflexivity|exact IH].
+Qed.
+
+Lemma mget_mset k k' v m : mget k (mset k' v m) = if N.eqb k k' then v else mget k m.
+Proof.
+  induction m as [|[j w] m IH]; cbn [mset mget]; [reflexivity|].
+  destruct (N.eqb_spec k' j); cbn [mget].
+  - subst j. destruct (N.eqb_spec k k'); reflexivity.
+  - destruct (N.eqb_spec k j); [|exact IH]. subst j. destruct (N.eqb_spec k k'); [congruence|reflexivity].
+Qed.
+
+Lemma mget_mset_all k ks v m : mget k (mset_all ks v m) = if existsb (N.eqb k) ks then v else mget k m.
+Proof.
+  unfold mset_all. revert m. induction ks as [|j ks IH]; intros m; cbn [fold_left existsb]; [reflexivity|].
+  rewrite IH, mget_mset. destruct (N.eqb k j); cbn [orb]; [|reflexivity]. destruct (existsb _ ks); reflexivity.
+Qed.
+
+Lemma mset_nonnil k v m : is_nil (mset k v m) = false.
+Proof. destruct m as [|[j w] m]; cbn [mset]; [reflexivity|]. destruct (N.eqb k j); reflexivity. Qed.
+
+Lemma mset_all_nonnil ks v m : is_nil ks = false -> is_nil (mset_all ks v m) = false.
+Proof.
+  unfold mset_all. intros Hks. destruct ks as [|j ks]; [discriminate|]. cbn [fold_left].
+  assert (Hg : forall ks m, is_nil m = false -> is_nil (fold_left (fun m k => mset k v m) ks m) = false).
+  { induction ks0 as [|i ks0 IH]; intros m0 Hm; cbn [fold_left]; [exact Hm|]. apply IH. apply mset_nonnil. }
+  apply Hg. apply mset_nonnil.
+Qed.
+
+Lemma trun_snoc h op : trun (h ++ [op]) = fst (tapply (trun h) op).
+Proof. unfold trun. rewrite fold_left_app. reflexivity. Qed.
+
+Lemma existsb_snoc {A} (f : A -> bool) l x : existsb f (l ++ [x]) = existsb f l || f x.
+Proof. rewrite existsb_app. cbn [existsb]. rewrite orb_false_r. reflexivity. Qed.
+
+Lemma spec_allowed_snoc h op name peer :
+  spec_allowed (h ++ [op]) name peer =
+  (spec_allowed h name peer && negb (op_disables name peer op)) || op_enables name peer op.
+Proof.
+  induction h as [|o h IH]; cbn [app spec_allowed existsb].
+  - cbn. rewrite !orb_false_r, andb_true_r. reflexivity.
+  - rewrite IH, existsb_snoc.
+    destruct (op_enables name peer o), (existsb (op_disables name peer) h), (op_disables name peer op),
+      (spec_allowed h name peer), (op_enables name peer op); reflexivity.
+Qed.
+
+Definition is_allowed (a : access) : bool := match a with AAllowed _ => true | _ => false end.
+
+Lemma access_allowed_inv t name peer :
+  is_allowed (access_of t name peer) = true ->
+  exists fid m, tget name t = Some (fid, m) /\ (is_nil m || mget peer m) = true.
+Proof.
+  unfold access_of. destruct (tget name t) as [[fid m]|]; [|discriminate].
+  destruct (is_nil m || mget peer m) eqn:E; [|discriminate]. eauto.
+Qed.
+
+Lemma access_allowed_intro t name peer fid m :
+  tget name t = Some (fid, m) -> mget peer m = true -> is_allowed (access_of t name peer) = true.
+Proof. intros E Hm. unfold access_of. rewrite E, Hm, orb_true_r. reflexivity. Qed.
+
+Lemma table_step_safe t op name peer (sp : bool) :
+  (is_allowed (access_of t name peer) = true -> sp = true) ->
+  is_allowed (access_of (fst (tapply t op)) name peer) = true ->
+  ((sp && negb (op_disables name peer op)) || op_enables name peer op) = true.
+Proof.
+  intros IH Hal.
+  destruct op as [n fid ns|n ns]; cbn [tapply op_enables op_disables] in *.
+  - (* Enable *) rewrite andb_true_r.
+    destruct (N.eqb_spec n name) as [->|Hn].
+    2:{ cbn [andb]. rewrite orb_false_r. apply IH.
+        destruct (tget n t) as [[fid' m]|]; [destruct (negb (N.eqb fid fid'))|]; cbn [fst] in Hal;
+          try exact Hal; unfold access_of in *; rewrite tget_tset_other in Hal by congruence; exact Hal. }
+    cbn [andb]. unfold covers.
+    destruct (tget name t) as [[fid' m]|] eqn:Et.
+    + destruct (negb (N.eqb fid fid')); cbn [fst] in Hal; [rewrite (IH Hal); reflexivity|].
+      apply access_allowed_inv in Hal as (f2 & m2 & E2 & Hm2). rewrite tget_tset_same in E2. injection E2 as <- <-.
+      destruct (is_nil ns) eqn:Ens; [apply orb_true_r|]. cbn [orb].
+      rewrite mset_all_nonnil in Hm2 by exact Ens. cbn [orb] in Hm2. rewrite mget_mset_all in Hm2.
+      destruct (existsb (N.eqb peer) ns); [apply orb_true_r|]. rewrite orb_false_r. apply IH.
+      eapply access_allowed_intro; eauto.
+    + cbn [fst] in Hal. apply access_allowed_inv in Hal as (f2 & m2 & E2 & Hm2). rewrite tget_tset_same in E2. injection E2 as <- <-.
+      destruct (is_nil ns) eqn:Ens; [apply orb_true_r|]. cbn [orb].
+      rewrite mset_all_nonnil in Hm2 by exact Ens. cbn [orb] in Hm2. rewrite mget_mset_all in Hm2.
+      destruct (existsb (N.eqb peer) ns); [apply orb_true_r|]. cbn [mget] in Hm2. discriminate.
+  - (* Disable *) rewrite orb_false_r.
+    destruct (N.eqb_spec n name) as [->|Hn].
+    2:{ cbn [andb negb]. rewrite andb_true_r. apply IH.
+        destruct (tget n t) as [[fid' m]|]; [destruct (is_nil ns)|]; cbn [fst] in Hal; try exact Hal;
+          unfold access_of in *; [rewrite tget_tdel_other in Hal by congruence|rewrite tget_tset_other in Hal by congruence]; exact Hal. }
+    cbn [andb]. unfold covers.
+    destruct (tget name t) as [[fid' m]|] eqn:Et.
+    + destruct (is_nil ns) eqn:Ens; cbn [fst] in Hal.
+      * unfold access_of in Hal. rewrite tget_tdel_same in Hal. discriminate.
+      * apply access_allowed_inv in Hal as (f2 & m2 & E2 & Hm2). rewrite tget_tset_same in E2. injection E2 as <- <-.
+        rewrite mset_all_nonnil in Hm2 by exact Ens. cbn [orb] in Hm2. rewrite mget_mset_all in Hm2.
+        destruct (existsb (N.eqb peer) ns); [discriminate|]. cbn [orb negb]. rewrite andb_true_r. apply IH.
+        eapply access_allowed_intro; eauto.
+    + cbn [fst] in Hal. unfold access_of in Hal. rewrite Et in Hal. discriminate.
+Qed.
+
+(* allowed after any history => some Enable(name, ns) with ns=[] \/ peer in ns that no later
+   Disable(name, ms) with ms=[] \/ peer in ms follows *)
+Theorem table_safe h name peer : allowed h name peer = true -> spec_allowed h name peer = true.
+Proof.
+  unfold allowed. change (is_allowed (access_of (trun h) name peer) = true -> spec_allowed h name peer = true).
+  induction h as [|op h IH] using rev_ind; [discriminate|].
+  rewrite trun_snoc, spec_allowed_snoc. apply table_step_safe. exact IH.
+Qed.
+
+(* the specification unfolded: what spec_allowed says *)
+Lemma spec_allowed_exists h name peer :
+  spec_allowed h name peer = true <->
+  exists h1 op h2, h = h1 ++ op :: h2 /\ op_enables name peer op = true /\
+                   forall o, In o h2 -> op_disables name peer o = false.
+Proof.
+  split.
+  - induction h as [|o h IH]; cbn [spec_allowed]; [discriminate|]. intros E. apply orb_true_iff in E as [E|E].
+    + apply andb_true_iff in E as [E1 E2]. exists [], o, h. split; [reflexivity|]. split; [exact E1|].
+      intros x Hx. apply negb_true_iff in E2. destruct (op_disables name peer x) eqn:Ex; [|reflexivity].
+      rewrite <- E2. symmetry. apply existsb_exists. eauto.
+    + destruct (IH E) as (h1 & op & h2 & -> & H1 & H2). exists (o :: h1), op, h2. auto.
+  - intros (h1 & op & h2 & -> & H1 & H2). induction h1 as [|o h1 IH]; cbn [app spec_allowed].
+    + rewrite H1. cbn [andb]. apply orb_true_iff. left. apply negb_true_iff. apply not_true_is_false. intros E.
+      apply existsb_exists in E as (x & Hx & Ex). rewrite (H2 x Hx) in Ex. discriminate.
+    + rewrite IH. apply orb_true_r.
+Qed.
+
+(* the converse is not a security property and fails: narrowing "any node" by a later Enable with nodes *)
+Definition table_converse_b : bool :=
+  let h := [Enable 1 0 []; Enable 1 0 [5]] in spec_allowed h 1 6 && negb (allowed h 1 6).
+Theorem table_converse_refuted : table_converse_b = true.
+Proof. vm_compute. reflexivity. Qed.
+
+(* the defect repaired by a542016, kept as a regression witness: with Disable deleting map entries the
+   history Enable(n,[a]); Disable(n,[a]) left an empty map = "any node" *)
+Definition appstart_regression_b : bool :=
+  let h := [Enable 1 0 [5]; Disable 1 [5]] in negb (allowed h 1 5) && negb (allowed h 1 6) && negb (spec_allowed h 1 6).
+Theorem appstart_regression : appstart_regression_b = true.
+Proof. vm_compute. reflexivity. Qed.
+
+(* ------------------------------------------------------------------------------------------------ *)
+(* Flags and env                                                                                     *)
+
+Theorem flags_gate field peer_fl node_fl h name source :
+  granted (remote_request field peer_fl node_fl (trun h) name source) = true ->
+  flag_ok node_fl field = true /\ flag_ok peer_fl field = true /\ spec_allowed h name source = true.
+Proof.
+  unfold remote_request. destruct (flag_ok peer_fl field); cbn [negb]; [|discriminate].
+  destruct (flag_ok node_fl field); cbn [negb]; [|discriminate]. cbn [granted]. intros G.
+  repeat split. apply table_safe. unfold allowed. destruct (access_of (trun h) name source); try discriminate. reflexivity.
+Qed.
+
+(* a target that switched the capability off never runs the request, whatever the requester does *)
+Theorem flags_off_never field peer_fl node_fl t name source :
+  f_enable node_fl = true -> field node_fl = false ->
+  granted (remote_request field peer_fl node_fl t name source) = false.
+Proof.
+  intros E F. unfold remote_request, flag_ok. rewrite E, F. cbn. destruct (negb _); reflexivity.
+Qed.
+
+(* both ends take the same decision from the flags exchanged in the handshake *)
+Theorem flags_agree f field : flag_ok (wire_flags f) field = flag_ok f field \/ (f_enable f = false /\ flag_ok (wire_flags f) field = true /\ flag_ok f field = true).
+Proof.
+  unfold wire_flags, flag_ok. destruct (f_enable f) eqn:E; [left; rewrite E; reflexivity|].
+  right. cbn. repeat split.
+Qed.
+
+Theorem env_only_when_exposed {A} expose (env : list A) : env_sent expose env <> [] -> expose = true.
+Proof. unfold env_sent. destruct expose; [reflexivity|intros Hn; contradiction Hn; reflexivity]. Qed.
